@@ -3,7 +3,7 @@
    Props/C12.v [C12_basic_forwards]) and basic_discrete_SIS.  Model: Model/Discrete.v (extracted
    and run against /repo); the Simulation_Investigation object: Model/Investigation.v; generic
    part of the property (what summary / node_status / t,S,I,R / the checker mean): Props/C10.v;
-   proofs: Proofs/DiscreteHist.v, DiscreteC10.v, DiscreteC10t.v.
+   proofs: Proofs/DiscreteHist.v, DiscreteC10.v, DiscreteC10t.v, DiscreteC10m.v.
 
    Same vocabulary as Props/C04disc.v (read its guide first): R = the transmission rule and
    random.choice as ARBITRARY sampler programs with [pick_sound R], trec = test_recovery or None,
@@ -13,7 +13,7 @@
    The object the simulators return is [mkInv (gnodes g) (fd_hist fd) None (Some ps)]: node
    histories fd_hist fd of the full-data run, possible statuses ps = 'SIR' / 'SI'. *)
 From EoNV Require Import Prelude Samp Graph Discrete DiscreteP SampP DiscreteChk DiscreteRun DiscreteRunS DiscreteTop DiscreteC04 DiscreteC05.
-From EoNV Require Import Investigation InvestigationP DiscreteC10 DiscreteC10t.
+From EoNV Require Import Investigation InvestigationP DiscreteC10 DiscreteC10t DiscreteC10m.
 From EoNV Require Gillespie GillespieP.
 From Coq Require Import Permutation Sorting.Sorted.
 
@@ -96,6 +96,35 @@ Theorem C10_discrete_SIR_both_return_modes : forall g tt pick ord i0 r0o tmin tm
     consistent_b (mkInv (gnodes g) (fd_hist fd) None (Some [stS; stI; stR])) (so_rows (o_sim outP)) tmin [(stS, stI); (stI, stR)] = true.
 Proof. exact dsir_both_modes. Qed.
 
+(* ... and WITH a recovery test, and for basic_discrete_SIS: return_full_data changes neither the
+   infected sets nor the counters (it only adds bookkeeping: more `infector` candidates, the
+   random.choice calls, the history and transmission appends), so for every fuel both modes run
+   out of fuel (a recovery test may never let the epidemic end) or both return, with the same
+   arrays, accepted by the checker against the histories of the full-data run *)
+Theorem C10_discrete_SIR_both_return_modes_with_recovery_test : forall g tt pick trec ord i0 r0o tmin tmax fuel,
+  wf_inputb g i0 (opt_list r0o) = true -> perm_oracle ord -> whole_steps tmin tmax -> gnodes g <> [] ->
+  (discrete_SIR g (det_rules tt pick) trec ord (Some i0) r0o None tmin tmax false fuel = Fail OutOfFuel /\
+   discrete_SIR g (det_rules tt pick) trec ord (Some i0) r0o None tmin tmax true fuel = Fail OutOfFuel) \/
+  exists outP outF fd,
+    discrete_SIR g (det_rules tt pick) trec ord (Some i0) r0o None tmin tmax false fuel = Ret outP /\
+    discrete_SIR g (det_rules tt pick) trec ord (Some i0) r0o None tmin tmax true fuel = Ret outF /\
+    so_full (o_sim outP) = None /\ so_full (o_sim outF) = Some fd /\
+    so_rows (o_sim outP) = so_rows (o_sim outF) /\
+    consistent_b (mkInv (gnodes g) (fd_hist fd) None (Some [stS; stI; stR])) (so_rows (o_sim outP)) tmin [(stS, stI); (stI, stR)] = true.
+Proof. exact dsir_both_modes_rec. Qed.
+
+Theorem C10_basic_discrete_SIS_both_return_modes : forall g tt pick ord i0 tmin tmax fuel,
+  wf_inputb g i0 [] = true -> perm_oracle ord -> whole_steps tmin tmax -> gnodes g <> [] ->
+  (basic_discrete_SIS_R g (det_rules tt pick) ord (Some i0) None tmin tmax false fuel = Fail OutOfFuel /\
+   basic_discrete_SIS_R g (det_rules tt pick) ord (Some i0) None tmin tmax true fuel = Fail OutOfFuel) \/
+  exists outP outF fd,
+    basic_discrete_SIS_R g (det_rules tt pick) ord (Some i0) None tmin tmax false fuel = Ret outP /\
+    basic_discrete_SIS_R g (det_rules tt pick) ord (Some i0) None tmin tmax true fuel = Ret outF /\
+    so_full (o_sim outP) = None /\ so_full (o_sim outF) = Some fd /\
+    so_rows (o_sim outP) = so_rows (o_sim outF) /\
+    consistent_b (mkInv (gnodes g) (fd_hist fd) None (Some [stS; stI])) (so_rows (o_sim outP)) tmin [(stS, stI); (stI, stS)] = true.
+Proof. exact dsis_both_modes. Qed.
+
 (* ---------------- non-vacuity ---------------- *)
 (* the graph of Props/C04disc.v: path 0 - 1 - 2 - 3 plus the chord 0 - 2; node 3 initially recovered *)
 Definition ex_adj (u : node) : list node :=
@@ -176,6 +205,25 @@ Proof.
   vm_compute. repeat split. discriminate.
 Qed.
 
+(* the runs of the two examples above in plain mode: they return (fuel 12 / 9 suffices), with
+   the arrays of the full-data runs; with fuel 3 both modes run out of fuel *)
+Example C10_disc_example_both_modes_rec_sis :
+  (exists oP oF, discrete_SIR ex_g (det_rules ex_tt1 (fun _ _ => O)) (Some ex_rec) ex_ord (Some [0%N]) (Some [3%N]) None (5 # 2) None false 12 = Ret oP /\
+     discrete_SIR ex_g (det_rules ex_tt1 (fun _ _ => O)) (Some ex_rec) ex_ord (Some [0%N]) (Some [3%N]) None (5 # 2) None true 12 = Ret oF /\
+     so_rows (o_sim oP) = so_rows (o_sim oF) /\ length (so_rows (o_sim oP)) = 8%nat) /\
+  (exists oP oF, basic_discrete_SIS_R ex_g (det_rules ex_tt (fun _ _ => O)) ex_ord (Some [0%N; 2%N]) None 0 (Some 3) false 9 = Ret oP /\
+     basic_discrete_SIS_R ex_g (det_rules ex_tt (fun _ _ => O)) ex_ord (Some [0%N; 2%N]) None 0 (Some 3) true 9 = Ret oF /\
+     so_rows (o_sim oP) = so_rows (o_sim oF) /\ length (so_rows (o_sim oP)) = 4%nat) /\
+  discrete_SIR ex_g (det_rules ex_tt1 (fun _ _ => O)) (Some ex_rec) ex_ord (Some [0%N]) (Some [3%N]) None (5 # 2) None false 3 = Fail OutOfFuel /\
+  discrete_SIR ex_g (det_rules ex_tt1 (fun _ _ => O)) (Some ex_rec) ex_ord (Some [0%N]) (Some [3%N]) None (5 # 2) None true 3 = Fail OutOfFuel.
+Proof.
+  split; [|split; [|split]].
+  - eexists. eexists. split; [vm_compute; reflexivity|]. split; [vm_compute; reflexivity|]. vm_compute. split; reflexivity.
+  - eexists. eexists. split; [vm_compute; reflexivity|]. split; [vm_compute; reflexivity|]. vm_compute. split; reflexivity.
+  - vm_compute. reflexivity.
+  - vm_compute. reflexivity.
+Qed.
+
 Print Assumptions C10_discrete_SIR_histories_good.
 Print Assumptions C10_basic_discrete_SIS_histories_good.
 Print Assumptions C10_discrete_SIR_summary_is_arrays.
@@ -183,7 +231,10 @@ Print Assumptions C10_basic_discrete_SIS_summary_is_arrays.
 Print Assumptions C10_discrete_SIR_checker_accepts_every_run.
 Print Assumptions C10_basic_discrete_SIS_checker_accepts_every_run.
 Print Assumptions C10_discrete_SIR_both_return_modes.
+Print Assumptions C10_discrete_SIR_both_return_modes_with_recovery_test.
+Print Assumptions C10_basic_discrete_SIS_both_return_modes.
 Print Assumptions C10_disc_hypotheses_satisfiable.
 Print Assumptions C10_disc_example_SIR.
 Print Assumptions C10_disc_example_SIS.
 Print Assumptions C10_disc_example_both_modes.
+Print Assumptions C10_disc_example_both_modes_rec_sis.
